@@ -288,6 +288,67 @@ def gen_ref_case(r, comp, generic=True):
     return {"comp": comp, "pbc": 1, "params": p, "groups": [ids], "atoms": atoms, "cell": None, "q0": q0}
 
 
+def gen_path_case(r, comp, sdir, tag):
+    """path variables in Cartesian space (reference frames in XYZ files, positions in the order of sorted atom numbers)
+    and rmsd with an XYZ file holding ALL atoms of the system (positions looked up by atom number)"""
+    n = r.randint(4, 6)
+    natoms = n + r.randint(0, 3)
+    for _ in range(100):
+        ref = [[V.dyadic(r, -4, 4, bits=4) for _ in range(3)] for _ in range(n)]
+        if nondegenerate(ref):
+            break
+    else:
+        return None
+    ids = r.sample(range(1, natoms + 1), n)
+    order = sorted(ids)                     # file order
+    atoms = G.gen_atoms(r, natoms, True)
+    M0 = G.quat_matrix(G.random_unit_quat(r)); t0 = [V.dyadic(r, -5, 5) for _ in range(3)]
+    p = {}
+    if comp == "rmsd":
+        full = [[r.uniform(-5, 5) for _ in range(3)] for _ in range(natoms)]
+        for k, i in enumerate(ids):
+            full[i - 1] = ref[k]
+        f = os.path.join(sdir, "%s_ref.xyz" % tag)
+        G.write_xyz(f, full)
+        p["reffile"] = f
+        cur = ref
+    else:
+        nfr = r.randint(3, 5)
+        disp = [[r.gauss(0, 0.6) for _ in range(3)] for _ in range(n)]
+        frames = [[G.add(ref[k], G.scale(j, disp[k])) for k in range(n)] for j in range(nfr)]
+        files = []
+        for j, fr in enumerate(frames):
+            f = os.path.join(sdir, "%s_%d.xyz" % (tag, j + 1))
+            # ref[k] belongs to ids[k]; the file lists the atoms by increasing atom number
+            G.write_xyz(f, [fr[ids.index(i)] for i in order])
+            files.append(f)
+        p["files"] = files
+        lam = r.uniform(0.3, nfr - 1.3)
+        cur = [G.add(ref[k], G.scale(lam, disp[k])) for k in range(n)]
+    for k, i in enumerate(ids):
+        atoms[i - 1][2:5] = [x + r.gauss(0, 0.15) for x in G.add(G.matvec(M0, cur[k]), t0)]
+    return {"comp": comp, "pbc": 1, "params": p, "groups": [ids], "atoms": atoms, "cell": None}
+
+
+def meta_of_path(r, c):
+    atoms = c["atoms"]; ids = c["groups"][0]
+    variants = []
+    for exact in (True, False):
+        M = random_rotation(r, exact)
+        t = [V.dyadic(r, -4, 4, bits=3) for _ in range(3)] if exact else [r.uniform(-4, 4) for _ in range(3)]
+        variants.append({"line": G.pos_line(G.move_atoms(atoms, M, t)), "rel": ("same", 1e-7), "what": "rigid motion"})
+    l2 = list(ids)
+    for _ in range(5):
+        r.shuffle(l2)
+        if l2 != ids:
+            break
+    c2 = dict(c); c2["groups"] = [l2]
+    variants.append({"line": G.impl_line([c2]), "rel": ("same", 1e-9), "what": "atoms listed in the order %s instead of %s (reference file unchanged)" % (l2, ids)})
+    c3 = dict(c); j = r.randrange(len(ids)); l3 = list(ids); l3.insert(r.randint(j + 1, len(ids)), ids[j]); c3["groups"] = [l3]
+    variants.append({"line": G.impl_line([c3]), "rel": ("same", 0.0), "what": "duplicate listing %s" % l3})
+    return {"what": c["comp"] + (":xyz" if c["comp"] == "rmsd" else ""), "case": c, "base_line": G.impl_line([c]), "variants": variants, "period": None}
+
+
 def gen_fitted_case(r):
     """cartesian / distanceVec evaluated in the frame of a fitted group (centerToReference + rotateToReference,
     optionally through a separate fittingGroup): 'fitted variables' of the property text"""
@@ -350,7 +411,7 @@ def replay_obj(kind, lines, extra=None):
 def check(run):
     r = V.rng("C02")
     quick = run.tier == "quick"
-    scale = 1 if quick else 25
+    scale = 3 if quick else 40
     run.cov["rule"] = ("tie: random systems (4-9 atoms, dyadic or generic masses/charges/coordinates, overlapping groups, duplicate listings, "
                        "orthorhombic cell on/off, forceNoPBC on/off) x every modelled component type x options, real colvar objects vs the extracted model; "
                        "search: metamorphic relations on the implementation alone (rigid motions by axis rotations + dyadic translations and by generic rotations, "
@@ -477,6 +538,8 @@ def check(run):
         ms["m"] = [mod.add(l) for l in ms["model"]]
         jobs.append(("misc", ms, None, None))
 
+    if not quick:
+        sanitizer_pass(run, impl.lines)
     rc1, iout, e1 = V.run_lines(unitp, impl.lines, timeout=1500)
     if len(iout) != len(impl.lines):
         k = len(iout)
@@ -523,6 +586,23 @@ def check(run):
     if rots:
         run.sample({"rotation": rots[0]["line"][:300], "out": iout[rots[0]["i"]][:300]})
     run.cov["correspondence"].update({"impl_lines": len(impl.lines), "model_lines": len(mod.lines)})
+
+
+def sanitizer_pass(run, lines):
+    """thorough tier: the same input lines through an ASan+UBSan build of the library (exploration: memory errors and
+    undefined behaviour in the value code paths; not part of any theorem)"""
+    try:
+        exe = V.build_prog("c02unit", UNIT["c02unit"], variant="asan")
+    except V.InfraError as e:
+        run.notes.append("sanitizer build not available: %s" % str(e)[:200])
+        return
+    sub = lines[:6000]
+    rc, out, err = V.run_lines(exe, sub, timeout=1500, env={"ASAN_OPTIONS": "detect_leaks=0"})
+    run.cov["correspondence"]["sanitizer_lines"] = len(out)
+    if rc != 0 or len(out) != len(sub):
+        k = len(out)
+        run.violation("unit:sanitizer", "the sanitizer build stops (rc=%d) at line %d: %s" % (rc, k, err[-600:]),
+                      replay_obj("lines", sub[max(0, k - 1):k + 1], {"variant": "asan"}))
 
 
 # ---------------------------------------------------------------------------------------------
@@ -685,6 +765,13 @@ def gen_metas(r, scale):
             c = gen_ref_case(r, comp)
             if c is not None:
                 metas.append(meta_of_ref(r, c))
+    # ---- Cartesian path variables and rmsd with a reference file
+    sdir = V.scratch("C02")
+    for comp in ("gspath", "gzpath", "aspath", "azpath", "rmsd"):
+        for k in range(3 * scale):
+            c = gen_path_case(r, comp, sdir, "%s_%d" % (comp, k))
+            if c is not None:
+                metas.append(meta_of_path(r, c))
     # ---- fitted groups
     for k in range(8 * scale):
         c = gen_fitted_case(r)
